@@ -250,6 +250,9 @@ func genScenario(r *vf.Rand, i int) (Scenario, bool) {
 		modes = []string{"panic"}
 	}
 	f := &prog.Fail{Mode: modes[r.Intn(len(modes))], Shard: -1, Row: r.Pick([]int{1, 1, 1, 2, 2, 5, 128, 129, 100000})}
+	if op == "readerfunc" && f.Mode != "panic" {
+		f.WithRows = r.Bool()
+	}
 	if f.Mode == "temp" {
 		f.Once = r.Bool()
 	}
@@ -288,6 +291,13 @@ func matrix() []Scenario {
 	for _, fl := range []*prog.Fail{f("error", 1, false, false), f("error", 1, false, true), f("panic", 1, false, false), f("temp", 1, true, false), f("temp", 2, false, false)} {
 		ps = append(ps, pn{mk(src, with(prog.Node{Op: "writerfunc", In: []int{0}}, fl), prog.Node{Op: "reshuffle", In: []int{1}}), 1})
 	}
+	// a reader error that arrives together with rows, consumed by a Scan callback in the same task,
+	// by a WriterFunc and across a shuffle
+	wr := f("error", 1, false, false)
+	wr.WithRows = true
+	ps = append(ps, pn{mk(with(rdr, wr), prog.Node{Op: "scan", In: []int{0}}), 0})
+	ps = append(ps, pn{mk(with(rdr, wr), prog.Node{Op: "writerfunc", In: []int{0}}, prog.Node{Op: "reshuffle", In: []int{1}}), 0})
+	ps = append(ps, pn{mk(with(rdr, wr), prog.Node{Op: "reduce", In: []int{0}, Comb: "sum"}), 0})
 	ps = append(ps, pn{mk(src, with(prog.Node{Op: "map", In: []int{0}, Exprs: []prog.Expr{col0, {K: "col", I: 1}}}, f("panic", 2, false, false))), 1})
 	ps = append(ps, pn{mk(src, with(prog.Node{Op: "filter", In: []int{0}, Exprs: []prog.Expr{{K: "true"}}}, f("panic", 1, false, false)), prog.Node{Op: "reduce", In: []int{1}, Comb: "max"}), 1})
 	ps = append(ps, pn{mk(src, with(prog.Node{Op: "flatmap", In: []int{0}, Exprs: []prog.Expr{{K: "const", A: 2}}}, f("panic", 3, false, false))), 1})
